@@ -70,15 +70,25 @@ pub fn chunk_batch(spec: &ChunkSpec, idx: usize, now: i64, rid0: i64) -> RecordB
         // the chunk spans two hour buckets: its oldest row lies in the hour before
         ts[0] -= HOUR;
     }
+    // two label columns of the same type; variant 6 lists them in the opposite order (same
+    // column set, different schema: merging by position would swap their values)
+    let host: ArrayRef = Arc::new(StringArray::from((0..n).map(|k| Some(["web-1", "web-2", "db-1"][(idx + k) % 3])).collect::<Vec<_>>()));
+    let region: ArrayRef = Arc::new(StringArray::from((0..n).map(|k| if (idx + k) % 4 == 3 { None } else { Some(["eu", "us"][(idx / 2 + k) % 2]) }).collect::<Vec<_>>()));
+    let swapped = spec.schema % 8 == 6;
+    let (l1, l2) = if swapped { (("region", region), ("host", host)) } else { (("host", host), ("region", region)) };
     let mut fields = vec![
         Field::new("timestamp", DataType::Timestamp(TimeUnit::Nanosecond, Some("UTC".into())), false),
         Field::new("metric_name", DataType::Utf8, false),
+        Field::new(l1.0, DataType::Utf8, true),
+        Field::new(l2.0, DataType::Utf8, true),
         Field::new("value_f64", DataType::Float64, true),
         Field::new("rid", DataType::Int64, false),
     ];
     let mut cols: Vec<ArrayRef> = vec![
         Arc::new(TimestampNanosecondArray::from(ts).with_timezone("UTC")),
         Arc::new(StringArray::from((0..n).map(|k| ["cpu", "mem"][(idx + k) % 2]).collect::<Vec<_>>())),
+        l1.1,
+        l2.1,
         Arc::new(Float64Array::from((0..n).map(|k| Some(k as f64 / 4.0)).collect::<Vec<_>>())),
         Arc::new(Int64Array::from((0..n as i64).map(|k| rid0 + k).collect::<Vec<_>>())),
     ];
